@@ -308,6 +308,27 @@ func c13Actions(emailReq bool, rich bool) func(s *world.Stack, w *world.World) [
 					return r
 				}, ""))
 			}
+			// a pending login completed with a recovery code, and that (now used) code offered again for the removal
+			if p := ses["totp_pending"]; p != "" && w.UID(b) == "" {
+				if l := w.Truth.Live("rc", p); len(l) > 0 {
+					v := l[0].Val
+					a = append(a, flows.A(fmt.Sprintf("totp-validate(%s,rc:live)", b), func(s *world.Stack, _ *world.World) world.Req {
+						r := flows.TOTPValidate(s, b, "", v)
+						r.Tag.Note = "rc:live"
+						return r
+					}, ""))
+				}
+			}
+			if subj := w.UID(b); subj != "" {
+				if sec := w.Truth.NewestUsed("rc", subj); sec != nil {
+					v := sec.Val
+					a = append(a, flows.A(fmt.Sprintf("totp-remove(%s,rc:used)", b), func(s *world.Stack, _ *world.World) world.Req {
+						r := flows.TOTPRemove(s, b, "", v)
+						r.Tag.Note = "rc:used"
+						return r
+					}, ""))
+				}
+			}
 			for _, pid := range accounts {
 				if l := w.Truth.Live("rc", pid); len(l) > 0 {
 					v := l[0].Val
